@@ -413,6 +413,9 @@ def lib_props():
     p["grid3"] = ras(SIZE, 3)
     p["grid_other"] = ras(OTHER, 2)
     p["grid_minmax"] = ras(SIZE, 2, minmax=False)
+    p["grid_u8"] = ras(SIZE, 2)
+    p["grid_u8_minmax"] = ras(SIZE, 2, minmax=False)
+    p["grid_i16_wide"] = ras(SIZE, 2)
     p["text"] = {"readable": False, "size": None, "count": 0, "minmax": True}
     p["missing"] = {"readable": False, "size": None, "count": 0, "minmax": True}
     return p
@@ -431,9 +434,9 @@ VALUES = {
     "segm": [OMIT, None, "segm", "segm_other", "text", 3],
     "left.disp": [[-2, 2], [0, 0], [-3, -3], [2, -2], [1, 0], [1], [1, 2, 3], [], [-2.0, 2.0], [-2, 2.5], ["a", "b"],
                   [None, None], "grid2", "grid_eq", "grid1", "grid3", "grid_other", "grid_minmax", "missing", "text",
-                  OMIT, None, 3, [True, True]],
+                  OMIT, None, 3, [True, True], "grid_u8", "grid_u8_minmax", "grid_i16_wide"],
     "right.disp": [OMIT, None, "grid2_r", "grid_eq", "grid1", "grid3", "grid_other", "grid_minmax", "missing", "text",
-                   [-2, 2], 3],
+                   [-2, 2], 3, "grid_u8", "grid_u8_minmax", "grid_i16_wide"],
 }
 
 
